@@ -69,7 +69,7 @@ pub fn run05(c: &Case05) -> Outcome {
         Case05::Conn { profile, fault } => {
             out.label("conn");
             let (duplex, h) = mem::new_duplex(profile.clone(), Some(fault.clone()));
-            let (r, step) = mem::mem_connect(&ClientCfg::simple(), duplex, profile.selected_protocol);
+            let (r, step, connect_stats) = mem::mem_connect_stats(&ClientCfg::simple(), duplex, profile.selected_protocol);
             let sent: Vec<(String, usize, Option<String>)> = h.borrow().sent_msgs.clone();
             let faulted = sent.iter().find(|m| m.2.is_some()).map(|m| m.0.clone());
             out.nontrivial(faulted.is_some());
@@ -110,7 +110,10 @@ pub fn run05(c: &Case05) -> Outcome {
             if h.borrow().spin {
                 out.fail(format!("{}:spin", step), "more than 64 reads on a finished stream within one call");
             }
-            let _ = n;
+            // memory requested on the way through connect, in proportion to the bytes the server had sent by then
+            if !out.failed() {
+                check_alloc(&mut out, step, &connect_stats, n);
+            }
         }
         Case05::Gcc(data) => {
             out.label("direct-gcc");
